@@ -38,6 +38,11 @@ def run(ctx, R, tier):
             detail={'methods': sorted(used)})
     # transition relation of the methods Track uses
     stvars = [v['name'] for v in (F.adt('start_time::StartTime') or {'variants': []})['variants']]
+    flag_names, bindings, problems = c03.owner_bindings(F)
+    R.check(not problems and 'track' in bindings, 'B.SM.reach', 'constructor',
+            '; '.join(problems) or 'no PlaybackStateManager constructor call found in the track code',
+            detail={'flags': flag_names, 'track': bindings.get('track')})
+    tflags = bindings.get('track', {})
     rel = {}
     for m in sorted(used):
         if m in ('playback_state', 'interpolated_fade_volume', 'new'):
@@ -46,7 +51,7 @@ def run(ctx, R, tier):
         if m == 'resume':
             bindings = [{'start_time': frozenset([v])} for v in stvars]
         for b in bindings:
-            r = c03.extract(F, m, names, b)
+            r = c03.extract(F, m, names, b, flags=tflags)
             if r is None:
                 continue
             for s in names:
